@@ -209,6 +209,16 @@ fn records_lane(ctx: &mut Ctx, idx: u64) {
                 // keys without '=' and blanks; values are arbitrary whitespace-free tokens (a value may contain '=')
                 e.extra.insert(format!("{}{}", ["arch", "profile", "essential", "k"][i], if r.chance(1, 3) { "é" } else { "" }), ["any", "all", "yes", "v", "!stage1", "a=b", "x==", "=y"][r.below(8)].to_string());
             }
+            // an unknown keyword in the priority position is rejected by the record too, not mapped to a default
+            for bad in ["bogus", "Optional", "-", "unknown", ""] {
+                let text = format!("{} {} {} {}", e.package, e.package_type, e.section, bad);
+                let res = guard(256, || f::PackageListEntry::from_str(text.trim_end()).is_ok());
+                ctx.count("record-reject-probes");
+                if !matches!(res, Ok(false)) {
+                    ctx.violation("unknown-keyword-accepted|PackageListEntry|priority", json!({"text": text, "result": format!("{:?}", res.map_err(|f| f.msg))}));
+                    break;
+                }
+            }
             let shape = format!("extras:{}", nextra.min(2));
             // the printed order of the extras must not depend on the instance: print repeatedly
             roundtrip(ctx, "PackageListEntry", &e, |x| x.to_string(), &shape);
@@ -223,6 +233,15 @@ fn records_lane(ctx: &mut Ctx, idx: u64) {
             let prio = f::Priority::from_str(r.pick_s(&PRIORITY)).unwrap();
             let v = debian_control::lossless::changes::File { md5sum: tok(&mut r), size, section: tok(&mut r), priority: prio, filename: tok(&mut r) };
             roundtrip(ctx, "changes::File", &v, |x| x.to_string(), "record");
+            for bad in ["bogus", "Optional", "unknown"] {
+                let text = format!("{} {} {} {} {}", v.md5sum, v.size, v.section, bad, v.filename);
+                let res = guard(256, || debian_control::lossless::changes::File::from_str(&text).is_ok());
+                ctx.count("record-reject-probes");
+                if !matches!(res, Ok(false)) {
+                    ctx.violation("unknown-keyword-accepted|changes::File|priority", json!({"text": text, "result": format!("{:?}", res.map_err(|f| f.msg))}));
+                    break;
+                }
+            }
         }
     }
     ctx.nontrivial(format!("{}|{}", idx % 6, r.next()).as_bytes());
